@@ -49,7 +49,11 @@ func verifC18Rebuild(maxUnits int) {
 	var wants []want
 	n := verifChoice("units", maxUnits) + 1
 	for u := 0; u < n; u++ {
-		name := fmt.Sprintf("t%d", u)
+		// the first letter is symbolic over {t, n, e, w, _}: a table name may begin with the
+		// very letters of the "new_" prefix the rebuild uses
+		first := verifString(fmt.Sprintf("name%d", u), 1)
+		verifAssume(verifOr(verifOr(first[0] == 't', first[0] == 'n'), verifOr(verifOr(first[0] == 'e', first[0] == 'w'), first[0] == '_')))
+		name := first + fmt.Sprintf("%d", u)
 		switch verifChoice(fmt.Sprintf("unit%d", u), 5) {
 		case 0: // rebuild keeping every column (e.g. a type change)
 			add("CREATE new", &schema.AddTable{T: mk("new_"+name, "id", "c")})
